@@ -50,7 +50,8 @@ CATALOGUE = [
     {'id': 'm-c06-encoder-value-index-kept', 'props': ['C06'], 'file': CO,
      'old': "        # Index to value is only needed for encoder\n        self.idx_value = 0\n",
      'new': "        # Index to value is only needed for encoder\n",
-     'note': 'the encoder goes on reading values where the previous subset ended'},
+     'extra': [{'file': 'pybufrkit/encoder.py', 'old': "                state.idx_value = 0\n", 'new': "                pass\n"}],
+     'note': 'the encoder goes on reading values where the previous subset ended (both resets removed; either alone is equivalent)'},
     {'id': 'm-c06-221-count-kept', 'props': ['C06'], 'file': CO,
      'old': "        self.data_not_present_count = 0  # 221\n",
      'new': "        self.data_not_present_count = getattr(self, 'data_not_present_count', 0)  # 221\n",
